@@ -9,8 +9,35 @@
 //!        method, `.irev` = `into_iter!(..).rev()`.  (`collect_const!` const items: vlib/progs/c09_cc.py)
 //!   rg.rangefrom[.fe|.ev] <ty> <a> <k>        first k items of `a..` (`next` k times / `for_each!` with a
 //!        `break` after k items / `eval!` with `take(k)`, which pulls k+1 items)
+//!   rg.rftop.<via> <ty> <a> <k>            `a..` with a close to the type's MAX, driven up to and past MAX:
+//!        what a consumer observes step by step, `[v:<x>;…]` followed by `panic` (a step panicked) or `end`
+//!        (the iteration ENDED although the consumer wanted more); <via> ∈ next (k calls of `next`), fe
+//!        (`for_each!` + `break` after k items), take / evtake (`for_each!`/`eval!` with `take(k)`), zip
+//!        (`a.., zip(0..k)`), zipin (`0..k, zip(a..)`), nth (`eval!(a.., nth(k))`), evnext (`eval!(a.., next())`)
+//!   rg.rftop.find <ty> <a> <target>        `eval!(a.., find(|x| x == target))`
+//!        oracle: std's `RangeFrom` under `catch_unwind` in this same build profile (overflow checks on:
+//!        values up to MAX-1, then the step that would have to compute MAX+1 panics; it never ends)
 //! values in decimal, chars as their u32 scalar value.
 use crate::util::*;
+
+/// run `f`, which pushes one observation per step into the vector; a panic becomes the final observation
+/// `panic` (or `runaway` when it was the harness's own guard against an iteration that does not stop)
+pub fn steps<F: FnOnce(&mut Vec<String>, &std::cell::Cell<bool>)>(f: F) -> String {
+    let mut v: Vec<String> = Vec::new();
+    let runaway = std::cell::Cell::new(false);
+    let r = std::panic::catch_unwind(std::panic::AssertUnwindSafe(|| f(&mut v, &runaway)));
+    if r.is_err() {
+        v.push(if runaway.get() { "runaway" } else { "panic" }.to_string());
+    }
+    fin(v)
+}
+
+/// the consumer wanted `k` items: fewer without a panic means the iteration ended
+pub fn want(v: &mut Vec<String>, k: usize) {
+    if v.len() < k {
+        v.push("end".to_string());
+    }
+}
 
 /// panics (→ the token `panic`) when an iteration macro yields more than `limit` items
 pub fn guard(v: &Vec<String>, limit: usize) {
@@ -95,7 +122,7 @@ macro_rules! ty_mod {
         offset = |$oa:ident, $od:ident| $offset:expr
     ) => {
         pub mod $m {
-            use super::{fin, guard, histories, MIXED};
+            use super::{fin, guard, histories, steps, want, MIXED};
             use crate::util::*;
             use konst::iter;
 
@@ -205,6 +232,163 @@ macro_rules! ty_mod {
                 out.emit(&format!("rg.rangefrom.ev {} {} {}", NAME, show(a), k), &imp, &ora, k + 1 <= room);
             }
 
+
+            fn tok(x: $T) -> String {
+                format!("v:{}", show(x))
+            }
+
+            /// `a..` driven up to and past MAX (see the module header): every consumer, k items wanted
+            pub fn from_top(a: $T, k: usize, out: &mut Out) {
+                let max: $T = $max;
+                // d = number of values `a..` can yield before the step that has to go beyond MAX
+                let d = (a..max).take(k + 3).count();
+                let mut emit = |via: &str, arg: String, imp: String, ora: String, scope: bool| {
+                    out.emit(&format!("rg.rftop.{} {} {} {}", via, NAME, show(a), arg), &imp, &ora, scope);
+                };
+                // k calls of `next`
+                let imp = steps(|v, _| {
+                    let mut it = iter::into_iter!(a..);
+                    for _ in 0..k {
+                        match it.copy().next() {
+                            Some((x, n)) => {
+                                it = n;
+                                v.push(tok(x));
+                            }
+                            None => {
+                                v.push("end".to_string());
+                                break;
+                            }
+                        }
+                    }
+                });
+                let ora = steps(|v, _| {
+                    let mut it = a..;
+                    for _ in 0..k {
+                        match it.next() {
+                            Some(x) => v.push(tok(x)),
+                            None => {
+                                v.push("end".to_string());
+                                break;
+                            }
+                        }
+                    }
+                });
+                emit("next", k.to_string(), imp, ora, true);
+                // `for_each!` with a `break` after k items
+                if k > 0 {
+                    let imp = steps(|v, _| {
+                        iter::for_each! {x in a.. => {
+                            v.push(tok(x));
+                            if v.len() == k { break; }
+                        }}
+                        want(v, k);
+                    });
+                    let ora = steps(|v, _| {
+                        for x in a.. {
+                            v.push(tok(x));
+                            if v.len() == k {
+                                break;
+                            }
+                        }
+                        want(v, k);
+                    });
+                    emit("fe", k.to_string(), imp, ora, true);
+                }
+                // `take(k)`: konst's emitted loop pulls a (k+1)-th item before it stops, std's `Take` does not;
+                // the two differ exactly when that extra pull is the step at MAX (k == d): existing observation
+                let ora = steps(|v, _| {
+                    for x in (a..).take(k) {
+                        v.push(tok(x));
+                    }
+                    want(v, k);
+                });
+                let imp = steps(|v, _| {
+                    iter::for_each! {x in a.., take(k) => { v.push(tok(x)); }}
+                    want(v, k);
+                });
+                emit("take", k.to_string(), imp, ora.clone(), k != d);
+                let imp = steps(|v, _| {
+                    iter::eval!(&(a..), take(k), for_each(|x| v.push(tok(x))));
+                    want(v, k);
+                });
+                emit("evtake", k.to_string(), imp, ora, k != d);
+                // zip with a k-item iterator: `a..` first (both pull k+1 items from it) / second (k items)
+                let imp = steps(|v, _| {
+                    iter::for_each! {(x, _) in a.., zip(0..k) => { v.push(tok(x)); }}
+                    want(v, k);
+                });
+                let ora = steps(|v, _| {
+                    for (x, _) in (a..).zip(0..k) {
+                        v.push(tok(x));
+                    }
+                    want(v, k);
+                });
+                emit("zip", k.to_string(), imp, ora, true);
+                let imp = steps(|v, _| {
+                    iter::for_each! {(_, x) in 0..k, zip(a..) => { v.push(tok(x)); }}
+                    want(v, k);
+                });
+                let ora = steps(|v, _| {
+                    for (_, x) in (0..k).zip(a..) {
+                        v.push(tok(x));
+                    }
+                    want(v, k);
+                });
+                emit("zipin", k.to_string(), imp, ora, true);
+                // `nth(k)` / `next()` as consumers
+                let one = |r: Option<$T>| match r {
+                    Some(x) => tok(x),
+                    None => "end".to_string(),
+                };
+                let imp = steps(|v, _| v.push(one(iter::eval!(a.., nth(k)))));
+                let ora = steps(|v, _| v.push(one((a..).nth(k))));
+                emit("nth", k.to_string(), imp, ora, true);
+                if k == 1 {
+                    let imp = steps(|v, _| v.push(one(iter::eval!(a.., next()))));
+                    let ora = steps(|v, _| v.push(one((a..).next())));
+                    emit("evnext", k.to_string(), imp, ora, true);
+                }
+                // `find`: the k-th value after a, or (beyond MAX) a value the iteration never reaches
+                let target: $T = match offset(a, k as i64) {
+                    Some(t) => t,
+                    None => $min,
+                };
+                let limit = 24usize; // = `findLimit` of the driver
+                let imp = steps(|v, runaway| {
+                    let mut calls = 0usize;
+                    let r = iter::eval!(a.., find(|x| {
+                        calls += 1;
+                        if calls > limit {
+                            runaway.set(true);
+                            panic!("iteration does not stop");
+                        }
+                        *x == target
+                    }));
+                    v.push(one(r));
+                });
+                let ora = steps(|v, runaway| {
+                    let mut calls = 0usize;
+                    let r = (a..).find(|x| {
+                        calls += 1;
+                        if calls > limit {
+                            runaway.set(true);
+                            panic!("iteration does not stop");
+                        }
+                        *x == target
+                    });
+                    v.push(one(r));
+                });
+                emit("find", show(target), imp, ora, true);
+            }
+
+            /// the starts of the `rg.rftop` requests: MAX-w+1..=MAX
+            pub fn top_starts(w: i64) -> Vec<$T> {
+                let max: $T = $max;
+                let mut v: Vec<$T> = (0..w).filter_map(|i| offset(max, -i)).collect();
+                v.sort();
+                v
+            }
+
             pub fn run(tier: &str, seed: u64, out: &mut Out) {
                 let thorough = tier == "thorough";
                 let min: $T = $min;
@@ -244,6 +428,13 @@ macro_rules! ty_mod {
                 for &a in &all {
                     for k in [1usize, 3, 8] {
                         from(a, k, out);
+                    }
+                }
+                // (3b) `a..` up to and past MAX
+                let (tw, tk) = if thorough { (8, 11) } else { (5, 7) };
+                for a in top_starts(tw) {
+                    for k in 0..=tk {
+                        from_top(a, k, out);
                     }
                 }
                 // (1) [after the short requests, so that a replay starts with small cases] complete: every pair of bounds of the 8-bit types
@@ -291,6 +482,11 @@ macro_rules! ty_mod {
                     if i % 4 == 0 {
                         macros(inc, a, b, out);
                         from(a, rng.below(12) as usize, out);
+                    }
+                    if i % 8 == 0 {
+                        // a start up to 11 below MAX, up to 15 items wanted
+                        let a = offset(max, -(rng.below(12) as i64)).unwrap();
+                        from_top(a, rng.below(16) as usize, out);
                     }
                 }
             }
@@ -412,6 +608,15 @@ fn char_gap(tier: &str, out: &mut Out) {
         for k in [0usize, 1, 15, 16, 17, 40] {
             t_char::from(a, k, out);
         }
+    }
+    // `a..` observed step by step across the gap (never near char::MAX: values only) and from 0x10FFF0 to the top
+    for a in [c(0xD7FC), c(0xD7FD), c(0xD7FE), c(0xD7FF), c(0xE000), c(0xE001)] {
+        for k in 0..=7 {
+            t_char::from_top(a, k, out);
+        }
+    }
+    for k in [14usize, 15, 16, 17, 20] {
+        t_char::from_top(c(0x10FFF0), k, out);
     }
 }
 
